@@ -393,3 +393,18 @@ func expandAllowed(c *core.Ctx, allow map[string]bool) {
 		}
 	}
 }
+
+// expandInlinedNames: a table keyed by function names (any of the forms obligation keys use) gets, for every listed private helper that
+// was written out inside its only reference caller on this tree, an entry for that caller with the same value.
+func expandInlinedNames(c *core.Ctx, table map[string]string) {
+	for _, pr := range c.InlinedPairs() {
+		hf, cf := core.SpecForms(pr[0]), core.SpecForms(pr[1])
+		for i := range hf {
+			if v, ok := table[hf[i]]; ok && i < len(cf) {
+				if _, have := table[cf[i]]; !have {
+					table[cf[i]] = v + " (body now inside this caller)"
+				}
+			}
+		}
+	}
+}
